@@ -2534,6 +2534,25 @@ func (x *Exec) churn(p *peer, op Input) {
 					return
 				}
 			}
+		case "callloop":
+			// calls the procedure another session keeps registering and unregistering
+			p.mu.Lock()
+			p.callReq[req] = "churn." + op.Tag
+			p.mu.Unlock()
+			p.send(&wamp.Call{Request: req, Options: wamp.Dict{"receive_progress": true}, Procedure: wamp.URI("churn." + op.Tag),
+				Arguments: wamp.List{"C." + strconv.Itoa(i)}, ArgumentsKw: wamp.Dict{"k": "C." + strconv.Itoa(i)}})
+			if _, ok := x.await(p, func(m wamp.Message) bool {
+				switch m := m.(type) {
+				case *wamp.Result:
+					prog, _ := m.Details["progress"].(bool)
+					return m.Request == req && !prog
+				case *wamp.Error:
+					return m.Request == req
+				}
+				return false
+			}); !ok {
+				return
+			}
 		case "metaloop":
 			p.mu.Lock()
 			p.callReq[req] = "wamp.session.count"
@@ -2619,7 +2638,7 @@ func (x *Exec) burst(in Input) {
 		go func(p *peer, ops []Input) {
 			defer wg.Done()
 			for _, op := range ops {
-				if op.Op == "regchurn" || op.Op == "metaloop" {
+				if op.Op == "regchurn" || op.Op == "metaloop" || op.Op == "callloop" {
 					x.churn(p, op)
 				} else {
 					x.sendConcurrent(p, op)
